@@ -409,8 +409,8 @@ impl TopicLens {
         };
         let opt_stream = |s: &Result<Option<iggy::models::stream::StreamDetails>, iggy::error::IggyError>| match s {
             Ok(Some(s)) => json!({"count": s.messages_count, "size": s.size.as_bytes_u64(), "topics": s.topics_count,
-                                   "tsum_count": s.topics.iter().map(|t| t.messages_count).sum::<u64>(),
-                                   "tsum_size": s.topics.iter().map(|t| t.size.as_bytes_u64()).sum::<u64>()}),
+                                   "tsum_count": s.topics.iter().fold(0u64, |a, t| a.wrapping_add(t.messages_count)),
+                                   "tsum_size": s.topics.iter().fold(0u64, |a, t| a.wrapping_add(t.size.as_bytes_u64()))}),
             _ => json!({"count": -1, "size": -1, "topics": -1, "tsum_count": -1, "tsum_size": -1}),
         };
         let stats = match stats {
